@@ -31,12 +31,33 @@ def extra_cases(tier):
                                                        surface=dict(s, n_point_masses=1))))
     C.append(Case("ComputeThrustLoads[symL_2x3]", F("structures.compute_thrust_loads", "ComputeThrustLoads",
                                                     surface=dict(s, n_point_masses=1))))
+    # CreateRHS with a load set in which some entries are exactly zero (no moment loads, say) and the others are far above the
+    # 1e-6 N zeroing threshold - the usual situation; two entries stay symbolic (zero or above the threshold)
+    from symoas.sym import bor, gt, lt, var as _var
+
+    def rhs_over(r):
+        ny = r.shapes["total_loads"][0]
+        a = np.zeros((ny, 6), dtype=object)
+        for j in range(ny):
+            a[j, 0], a[j, 2], a[j, 4] = 100.0 + j, -250.0 * (j + 1), 7.5
+        a[0, 0], a[ny - 1, 2] = _var("total_loads[0,0]"), _var("total_loads[%d,2]" % (ny - 1))
+        return {"total_loads": a}
+
+    def rhs_assume(ins):
+        from symoas.sym import Sym
+
+        from symoas.sym import eq
+
+        # each symbolic entry is either exactly zero or well above the threshold (both happen from one run to the next)
+        return [bor(gt(x, 1e-6), lt(x, -1e-6), eq(x, 0)) for x in ins["total_loads"].ravel() if isinstance(x, Sym) and x.op == "var"]
+
+    C.append(Case("CreateRHS[zero and non-zero loads]", F("structures.create_rhs", "CreateRHS", surface=s), overrides=rhs_over, assumptions=rhs_assume))
     # AtmosComp: table look-ups by scipy interpolants (exact polynomial pieces, one path per table interval); restricted to
     # a few intervals around 35 000 ft so that the history obligation stays cheap
     from fractions import Fraction
 
     from props import c17
-    from symoas.sym import const, ge, lt
+    from symoas.sym import const, ge
 
     extra, ac = c17.atmos_stubs()
 
